@@ -140,7 +140,8 @@ func machine(input OmegaInput) (output OmegaOutput) {
 		}
 	}
 
-	var u Memory
+	// u: an empty memory (no page accessible), but with a page table that `pages` can fill in
+	u := Memory{Pages: make(map[uint32]*Page)}
 	_, exitReason := DeBlobProgramCode(p)
 	// otherwise if deblob(p) = PANIC
 	if exitReason == ExitPanic {
